@@ -301,10 +301,16 @@ Section Overlap.
     | OpMutation => [109;117;116;97;116;105;111;110]
     | OpSubscription => [115;117;98;115;99;114;105;112;116;105;111;110]
     end.
+  (* every operation and every fragment definition still present is walked with fresh requirements *)
   Definition go_overlap_ok (d : document) : bool :=
     forallb (fun o => match root_type S (op_kind o) with
                       | Some rt => match ov_sels [op_root_name (op_kind o)] rt (op_sels o) ([], []) with
                                    | Some _ => true | None => false end
                       | None => false
-                      end) (doc_ops d).
+                      end) (doc_ops d) &&
+    forallb (fun f => match gkind (fr_type f) with
+                      | Some _ => match ov_sels [fr_type f] (fr_type f) (fr_sels f) ([], []) with
+                                  | Some _ => true | None => false end
+                      | None => false
+                      end) (doc_frags d).
 End Overlap.
